@@ -186,6 +186,13 @@ def run_twin(case, late):
         else:
             raise Violation('C20.older-system', 'an older system was allowed to simulate')
     # ---- look-up: exactly the registered assets matching all given filters
+    got_all = s.find_assets()
+    n_all = len(got_all)
+    got_all.clear()         # the returned list is the caller's; editing it must not unregister anything
+    if len(s.find_assets()) != n_all or len(s._assets) != n_all:
+        raise Violation('C20.find', f'emptying the list returned by find_assets() left {len(s._assets)} of {n_all} assets '
+                        f'registered')
+    assets = s._assets
     names = [None, 'P', 'K', 'nope']
     ids = [None, o['P'].id, -3]
     types = [None, PartHandler, Tgt, Sink, Asset]
@@ -251,6 +258,9 @@ def run_attach(case, late):
     env = s.env
     src = Source('S', PartGenerator('p', 1.0), kit['src_c'], INF if kit['budget'] == 'inf' else kit['budget'])
     H = PartHandler('H', [src], kit['h_c'])
+    if case.get('sibling'):
+        # H already has a (slow) downstream, so the new device is not its first one
+        Sink('Kslow', [H], 6)
     o = {}
 
     def create():
@@ -305,6 +315,12 @@ def run_attach(case, late):
                                   'supplied_new_part') and i == 1)) for r in recs]
     out['sink-count'] = o['K'].received_parts_count
     out['sink-value'] = o['K'].value
+    # the caller may do what it likes with the list find_assets returns
+    lst = s.find_assets()
+    n_before = len(lst)
+    lst.clear()
+    if len(s.find_assets()) != n_before:
+        raise Violation('C20.find', f'emptying the list returned by find_assets() unregistered {n_before - len(s.find_assets())} assets')
     if 'P' in o:
         out['uptime-since-creation'] = o['P'].uptime - (0 if late else T)
         out['utilization'] = o['P'].utilization_time
